@@ -128,5 +128,44 @@ PROPS["C09"] = dict(
         S("small-asan", "views", [], (9000, 200), (160000, 500)),
         S("small-nosse-ts-asan", "views", [], (2500, 150), (40000, 400)),
         S("host-asan", "views", [], (1500, 300), (30000, 1200)),
+        # sizes that enter the block-recursive PLE / TRSM / Strassen regimes on windows
+        S("small-asan", "views", ["--fam", "ple,ech,solve,kernel,trsm,inv,mul"], (700, 420), (12000, 900)),
+    ],
+)
+
+PROPS["C10"] = dict(
+    level="exploration",
+    rule="case = (operation, operand values) executed under 7 environments: fresh (empty block cache, no poison) | after 1-3 executions of the same op (dirty cached "
+         "blocks of exactly its temporaries' sizes) | fresh blocks poisoned 0xFF | 0xA5 + cached blocks overwritten | PRNG bytes + cached blocks overwritten | after "
+         "a random prefix of other library calls | 0x00; supplied destinations that the op overwrites are re-filled with other content in each environment; oracle: "
+         "bit-identical outputs (matrices, return values, permutations) across environments, model result in each, zero padding of every owned operand/result; "
+         "second monitor: the op table under valgrind memcheck in the cache-free build, any new memcheck error during a case is a violation; "
+         "distinct = (build, operation, parameter class, shape class, patterns); non-trivial = the operation allocated temporaries (counted by the interposer)",
+    assumptions=MODEL + ["allocator interposer (harness/alloc_wrap.c) sees every allocation request of the library and nothing else"],
+    stages=[
+        S("small-plain", "pure", [], (2500, 200), (40000, 600)),
+        S("small-asan", "pure", [], (1200, 160), (20000, 400)),
+        S("host-nosse-plain", "pure", [], (600, 260), (10000, 900)),
+        S("small-ts-plain-vg", "func", ["--balance", "0"], (160, 90), (2400, 260), valgrind=True, timeout=900),
+    ],
+)
+
+ALLFAM = "mul,ech,ple,trsm,inv,solve,kernel,move,rowcol,obs"
+PROPS["C11"] = dict(
+    level="exploration",
+    rule="monitor A: the workloads of C01-C09/C13/C17 (every op of the table, operands owned or windows incl. odd word offsets = row starts 8 mod 16) in ASan+UBSan "
+         "builds with fatal reports, each case attributed; monitor B: allocation balance per case (library blocks live before == after everything was freed, block "
+         "cache excluded; header leaks visible in the cache-free build); monitor C: every checked public wrapper called with each kind of dimension mismatch in a "
+         "forked child whose abort() is hooked: must die by SIGABRT through m4ri_die with a diagnostic, operands bit-identical, no sanitizer report; "
+         "distinct = (build, op, parameter class, shape class, placement tuple) resp. (wrapper, mismatch kind); non-trivial = case executed library code on non-1x1 operands",
+    assumptions=MODEL + ["ASan red zones miss non-adjacent and intra-block overflows (DESIGN.md section 7)"],
+    stages=[
+        S("small-asan", "func", ["--fam", ALLFAM, "--policy", "win"], (6000, 260), (120000, 700)),
+        S("small-nosse-ts-asan", "func", ["--fam", ALLFAM, "--policy", "win"], (3000, 200), (60000, 500)),
+        S("host-asan", "func", ["--fam", ALLFAM, "--policy", "win"], (1500, 400), (30000, 1500)),
+        S("mid-debug-asan", "func", ["--fam", ALLFAM, "--policy", "win"], (2000, 300), (40000, 900)),
+        S("small-gomp-asan", "func", ["--fam", "mul,ech", "--policy", "win"], (500, 300), (10000, 700), env={"OMP_NUM_THREADS": "4"}),
+        S("small-asan", "illdim", [], (840, 150), (8400, 300)),
+        S("small-gomp-asan", "illdim", [], (460, 150), (4600, 300), env={"OMP_NUM_THREADS": "2"}),
     ],
 )
